@@ -20,6 +20,7 @@ import (
 	"github.com/opsidian/parsley/parser"
 	"github.com/opsidian/parsley/parsley"
 	"github.com/opsidian/parsley/text"
+	"github.com/opsidian/parsley/text/terminal"
 
 	"verifharness/internal/gram"
 	"verifharness/internal/run"
@@ -117,6 +118,9 @@ func c14vetted(r *rand.Rand, g *gram.Grammar, nt int, n int) []string {
 	return ins
 }
 
+// c14patternSerial numbers the constructions of the regexp tokenizer
+var c14patternSerial int64
+
 func c14graphs(r *rand.Rand, yieldEvery int64) []*c14graph {
 	var gs []*c14graph
 	// JSON example
@@ -199,6 +203,25 @@ func c14graphs(r *rand.Rand, yieldEvery int64) []*c14graph {
 			mg.inputs = append(mg.inputs, c14input{text: in})
 		}
 		gs = append(gs, mg)
+	}
+	// a tokenizer of regular-expression terminals whose pattern TEXTS are new with every construction (a service that
+	// builds grammars from configuration): whatever the library keeps per pattern is written in every round, not only
+	// by the first users of a cold process. The language is the same for every construction (the optional Z{n} tail
+	// never matches the Z-free inputs).
+	{
+		rgr := &c14graph{name: "regexp tokens with fresh pattern texts", build: func() parsley.Parser {
+			n := atomic.AddInt64(&c14patternSerial, 1)
+			var alts []parsley.Parser
+			for k := 0; k < 12; k++ {
+				pat := fmt.Sprintf("%c+(?:Z{%d})?", 'a'+k, 1+n%900)
+				alts = append(alts, text.LeftTrim(terminal.Regexp("tok", "TOK", "a token", pat, 0), text.WsSpaces))
+			}
+			return combinator.Sentence(text.RightTrim(combinator.Many(combinator.Choice(alts...)), text.WsSpacesNl))
+		}}
+		for _, in := range []string{"", "a", "aaa bb c", "l k j i h g f e d c b a", "abcdefghijkl", "aa  bb 1", "a\nb", "kkk lll\n", strings.Repeat("abc def ghi jkl ", 12), strings.Repeat("l", 300) + " !"} {
+			rgr.inputs = append(rgr.inputs, c14input{text: in})
+		}
+		gs = append(gs, rgr)
 	}
 	// NOTE: the expected outcomes are NOT computed here. Any sequential parse before the first concurrent round would
 	// warm up process-wide state (a lazily filled package-level cache is only written by its first users) and hide
